@@ -8,16 +8,16 @@ V = lambda x: ("v", x)
 T = ("this",)
 
 
-def classes(with_pair_dtor):
+def classes(with_pair_dtor, leaf_dtor=True, node_dtor=True):
     leaf = dict(name="Leaf", base=None, fields=[(False, False, "int", "v", None)],
                 ctors=[([("int", "v")], None, [("expr", ("fset", T, "v", V("v")))], False)],
                 meths=[("plus", [("int", "k")], "int", [("ret", ("bin", "+", ("fld", T, "v"), V("k")))], False, "")],
-                dtor=[("echo", ("bin", "+", S("~Leaf "), ("fld", T, "v"))), ("echo", S("~Leaf done"))])
+                dtor=[("echo", ("bin", "+", S("~Leaf "), ("fld", T, "v"))), ("echo", S("~Leaf done"))] if leaf_dtor else None)
     node = dict(name="Node", base=None, fields=[(False, False, "int", "v", None), (False, False, ("cls", "Node"), "next", None)],
                 ctors=[([("int", "v")], None, [("expr", ("fset", T, "v", V("v")))], False)],
                 meths=[("sum", [], "int", [("if", ("bin", "==", ("fld", T, "next"), ("null",)), ("block", [("ret", ("fld", T, "v"))]), None),
                                            ("ret", ("bin", "+", ("fld", T, "v"), ("mcall", ("fld", T, "next"), "sum", [])))], False, "")],
-                dtor=[("echo", ("bin", "+", S("~Node "), ("fld", T, "v")))])
+                dtor=[("echo", ("bin", "+", S("~Node "), ("fld", T, "v")))] if node_dtor else None)
     pair = dict(name="Pair", base=None, fields=[(False, False, ("cls", "Leaf"), "left", None), (False, False, ("cls", "Leaf"), "right", None)],
                 ctors=[([(("cls", "Leaf"), "l"), (("cls", "Leaf"), "r")], None,
                         [("expr", ("fset", T, "left", V("l"))), ("expr", ("fset", T, "right", V("r")))], False)],
@@ -56,7 +56,8 @@ def functions():
 
 
 def gen(rng):
-    cl = classes(rng.random() < 0.5)
+    # plain classes too: an object without a destructor is protected by marking alone, not by the rule for observable releases
+    cl = classes(rng.random() < 0.5, rng.random() < 0.6, rng.random() < 0.6)
     fns = functions()
     body = []
     nv = [0]
